@@ -46,6 +46,8 @@
 (*       obj_identity           the same with an object that keeps the identity hash     *)
 (*       generator_in_init      random.Random(seed) built once in __init__ and used by   *)
 (*                              every call: a second call continues the stream           *)
+(*       memo_per_object        results memoised per query on the object, ignoring its   *)
+(*                              seed / parameters, and the cached object handed out      *)
 (*     A run returns the worst case "result = the stream it consumed".  TLC explores      *)
 (*     every idiom x seed (0 included) x label kind x initial-support size x two          *)
 (*     processes with different hash seeds x all prior global states, checks              *)
@@ -71,7 +73,8 @@ Range(sq) == {sq[i] : i \in 1..Len(sq)}
 Gens    == {"random", "numpy", "torch"}
 Clauses == {"isolated", "rerun", "global", "hash", "reuse"}
 Idioms  == {"private", "threaded", "stable_obj_seed", "seed_or_draw_numpy", "seed_or_draw_torch",
-            "unthreaded_first_draw", "obj_hash", "obj_identity", "generator_in_init"}
+            "unthreaded_first_draw", "obj_hash", "obj_identity", "generator_in_init",
+            "memo_per_object"}
 GoodIdioms == {"private", "threaded", "stable_obj_seed"}
 
 \* ------------------------------------------------------------------ judging one run
@@ -122,6 +125,7 @@ Breaks(idiom, z, lk, multi) ==
     [] idiom = "obj_hash"                -> IF lk = "str" THEN {"hash"} ELSE {}
     [] idiom = "obj_identity"            -> {"rerun", "global", "hash"}
     [] idiom = "generator_in_init"       -> {"reuse"}
+    [] idiom = "memo_per_object"         -> {"reuse"}
     [] OTHER                             -> Clauses
 
 Procs  == {1, 2}
@@ -150,15 +154,19 @@ Exec(idiom, seed, lk, multi, p, pre, addr) ==
          [eff |-> <<"hash", seed, IF lk = "str" THEN HSof(p) ELSE 0>>, post |-> pre]
     [] idiom = "obj_identity" ->
          [eff |-> <<"addr", addr>>, post |-> pre]
-    [] idiom = "generator_in_init" ->           \* first call on a new object: stream starts at the seed
+    [] idiom \in {"generator_in_init", "memo_per_object"} ->   \* first call on a new object
          [eff |-> <<"seed", seed>>, post |-> pre]
 
 \* a second call on the object whose first call was the last fresh run of process p (MC: l = p).
 \* Modelled for the idioms of objects that take a seed parameter; an object that built its
 \* generator once in __init__ continues the stream instead of restarting it
-ReuseIdioms == GoodIdioms \cup {"generator_in_init"}
+\* A reuse run also stands for a long-lived object with a history (its earlier results were
+\* modified by the caller, it was used with other parameters before): an object that memoises
+\* results per query without regard to its parameters hands out a stale / shared result
+ReuseIdioms == GoodIdioms \cup {"generator_in_init", "memo_per_object"}
 ExecReuse(idiom, seed, lk, multi, p, pre) ==
   IF idiom = "generator_in_init" THEN [eff |-> <<"seed", seed, "continued">>, post |-> pre]
+  ELSE IF idiom = "memo_per_object" THEN [eff |-> <<"stale">>, post |-> pre]
   ELSE Exec(idiom, seed, lk, multi, p, pre, 0)
 
 IdiomSel == IOEnv.IDIOM
